@@ -76,10 +76,32 @@ func nontrivial(m *ref.SNode) bool {
 	return feat && m.CountNodes() >= 3
 }
 
-func addNotes(t *rapid.T, m *ref.SNode) {
+func addNotes(t *rapid.T, m *ref.SNode, st *gen.Style) {
+	texts := []string{"note", "some text 1", "x - y", "a {b} c", "ünï"}
+	if st.MultiLine {
+		// inside /* */ a '#' is note text, not a user comment
+		texts = append(texts, "the # of items", "see #42 (c# backlog)", "# leading")
+	}
 	m.Walk(func(n *ref.SNode) {
 		if rapid.IntRange(0, 4).Draw(t, "note") == 0 {
-			n.Note = rapid.SampledFrom([]string{"note", "some text 1", "x - y", "a {b} c", "ünï"}).Draw(t, "noteText")
+			n.Note = rapid.SampledFrom(texts).Draw(t, "noteText")
+		}
+		if !st.MultiLine {
+			return
+		}
+		// inline notes on the items of an enum written inside a multi-line annotation
+		for i := range n.Rules {
+			r := &n.Rules[i]
+			if r.Name != "enum" || r.ValKind != ref.RVEnum || rapid.IntRange(0, 2).Draw(t, "itemNotes") != 0 {
+				continue
+			}
+			items := append([]ref.EnumItem(nil), r.Enum...)
+			for k := range items {
+				if rapid.IntRange(0, 2).Draw(t, "itemNote") > 0 {
+					items[k].Comment = rapid.SampledFrom([]string{"plain note", "tag #c-sharp", "see ticket #42", "a - b", "ünï", "x // y"}).Draw(t, "itemNoteText")
+				}
+			}
+			r.Enum = items
 		}
 	})
 }
@@ -91,6 +113,7 @@ func style(t *rapid.T) *gen.Style {
 	st.TrailingComma = rapid.IntRange(0, 3).Draw(t, "tcomma") == 0
 	st.NL = rapid.SampledFrom([]string{"\n", "\n", "\r\n", "\r"}).Draw(t, "nl")
 	st.Comments = rapid.SampledFrom([]int{0, 0, 1, 2, 3}).Draw(t, "comments")
+	st.EmptyAnn = rapid.SampledFrom([]int{0, 0, 1, 2, 3}).Draw(t, "emptyAnn")
 	return st
 }
 
@@ -103,17 +126,17 @@ func TestAST(t *testing.T) {
 		switch rapid.IntRange(0, 2).Draw(t, "family") {
 		case 0: // ruled plain-JSON trees
 			m := gen.RuledTree(t, rapid.IntRange(1, 3).Draw(t, "depth"), false, "m")
-			addNotes(t, m)
+			addNotes(t, m, st)
 			c = Case{Spec: lib.Spec{Schema: string(gen.PrintSchema(m, st))}, Model: m}
 			run.Label("family:ruled-tree")
 		case 1: // rule-free shapes
 			m := gen.ShapeSchema(t, gen.ShapeOpts{Depth: 3, Width: 3}, "m")
-			addNotes(t, m)
+			addNotes(t, m, st)
 			c = Case{Spec: lib.Spec{Schema: string(gen.PrintSchema(m, st))}, Model: m}
 			run.Label("family:shape")
 		default: // type graphs: references, or, allOf, key shortcuts
 			gc := gen.GenGraph(t, gen.GraphOpts{MaxTypes: 4, Recursion: true}, "g")
-			addNotes(t, gc.G.Root)
+			addNotes(t, gc.G.Root, st)
 			pg := gc.Print(st)
 			sp := lib.Spec{Schema: pg.Schema, KeysOptional: gc.G.KeysOptional}
 			for _, ty := range pg.Types {
